@@ -99,9 +99,9 @@ DED = {
          "accumulates exactly T (with termination); lemma coupling-lower-bound (induction over an arbitrary coupling); every lambda of "
          "_p2weight is proved monotone in its first argument; lemma transposed-tables-agree (induction over the cells): two tables "
          "certified for D and for its transpose agree cell by cell, so the score is the same when the tracks are swapped, given that "
-         "the swapped call's matrix is the transpose.",
-         "forming D (and hence the symmetry of _distance that makes the swapped matrix the transpose), _fillAF_dtw (links, nb_links, "
-         "score) and _fdtw (best-first search) are bounded only."),
+         "the swapped call's matrix is the transpose; proof harness distance_both_ways: the real _distance gives the same value in both "
+         "orders for dim = 1, 2, 3 (so the swapped matrix is the transpose, entry by entry).",
+         "the double loop filling D, _fillAF_dtw (links, nb_links, score) and _fdtw (best-first search) are bounded only."),
 }
 DED.update({
  "C06": ("Network.run_routing_forward: the Dijkstra loop as a REGION contract (cut from the real function on every run) over an abstract "
